@@ -350,6 +350,109 @@ def work_scenario(rnd):
     return dict(g=gen.g, hb=gen.hb, keys=len(gen.keys), issuance=gen.issuance, node_key="k1", replica=True, steps=gen.steps)
 
 
+def dust_spend_scenario(rnd):
+    """an output too small to pay its rebroadcast fee is collected by the chain when its block leaves the window;
+    somebody tries to spend it in the collecting block, in a later block, or through the pool"""
+    g = rnd.choice([3, 4, 5])
+    fee = rnd.choice([20000, 50000])
+    dust = rnd.choice([1, 2, 50])
+    steps = []
+    ntx = [0]
+
+    def tx(signer, ins, outs, fee=0):
+        ntx[0] += 1
+        return dict(id="t%d" % ntx[0], signer=signer, ins=ins, outs=outs, fee=fee, path=[])
+
+    def blk(label, txs, tag="good"):
+        return dict(op="block", label=label, gt=True, txs=txs, tag=tag, gap=2)
+    t = tx("k1", ["g0"], [["k2", dust], ["k1", 0]], fee)
+    dust_name, carry = t["id"] + ".0", t["id"] + ".1"
+    steps.append(blk("b2", [t]))
+    h = 2
+    collect_h = 2 + g + 1
+    delay = rnd.randint(0, g - 1)
+    mode = rnd.choice(["block", "block", "pool"])
+    while h < collect_h + delay:
+        h += 1
+        txs = []
+        t = tx("k1", [carry], [["k1", 0]], fee if h < collect_h else 0)
+        carry = t["id"] + ".0"
+        txs.append(t)
+        last = (h == collect_h + delay)
+        if last and mode == "block":
+            txs.append(tx("k2", [dust_name], [["k2", 0]]))
+            steps.append(blk("x%d" % h, txs, tag="bad:collected_dust"))
+        else:
+            steps.append(blk("b%d" % h, txs))
+    if mode == "pool":
+        steps.append(dict(op="submit", tx=tx("k2", [dust_name], [["k2", 0]]), tag="stale"))
+        steps.append(dict(op="bundle", label="n%d" % (h + 1), gt=True, gap=2, tag="bundle"))
+    # the chain goes on
+    t = tx("k1", [carry], [["k1", 0]])
+    steps.append(blk("c%d" % (h + 1), [t]))
+    return dict(g=g, hb=100, keys=2, issuance=[["k1", 1000000]] * (g + 3), node_key="k1", replica=True, steps=steps,
+                tag="dust-spend")
+
+
+def lottery_scenario(rnd, seed_no):
+    """blocks full of fee-paying transactions with different senders, routers and path lengths, paid out by
+    the next ticket (and by the one after, when a block goes without a ticket); the ticket seed selects the
+    lottery outcome"""
+    gen = Gen(rnd, 10, 3)
+    gen.hb = 100
+    gen.issuance = [[rnd.choice(gen.keys), rnd.choice([100000, 300000])] for _ in range(12)]
+    gen.outs = {"g%d" % i: (k, 1) for i, (k, a) in enumerate(gen.issuance)}
+    gen.snap = {"b1": (dict(gen.outs), 1, {})}
+    nblocks = rnd.randint(3, 5)
+    for b in range(nblocks):
+        h = gen.h + 1
+        txs = []
+        for _ in range(rnd.randint(1, 3)):
+            t = gen.newtx(h, fee_p=0.0, path_p=0.0, two_in_p=0.0)
+            if not t or set(t["ins"]) & {n for x in txs for n in x["ins"]}:
+                continue
+            t["fee"] = rnd.choice([0, 1, 2, 5, 1000, 1001, 4097])
+            others = [k for k in gen.keys if k != t["signer"]]
+            shape = rnd.choice(["none", "direct", "two", "three", "elsewhere"])
+            if shape == "direct":
+                t["path"] = [t["signer"], "c"]
+            elif shape == "two":
+                t["path"] = [t["signer"], rnd.choice(others), "c"]
+            elif shape == "three" and len(others) >= 2:
+                t["path"] = [t["signer"], others[0], others[1], "c"]
+            elif shape == "elsewhere":
+                t["path"] = [t["signer"], rnd.choice(others)]
+            txs.append(t)
+        if not txs:
+            break
+        label = "b%d" % h
+        gt = True if b == 0 else gen.gt_flag(h)
+        gen.steps.append(dict(op="block", label=label, gt=gt, txs=txs, tag="good", gap=2,
+                              gt_seed=seed_no * 131 + b))
+        for t in txs:
+            gen.apply(t, h)
+        gen.h = h
+        gen.chain.append(label)
+        gen.snap[label] = (dict(gen.outs), h, dict(gen.spent))
+    return dict(g=gen.g, hb=gen.hb, keys=len(gen.keys), issuance=gen.issuance, node_key="k1", replica=False,
+                steps=gen.steps, tag="lottery")
+
+
+def needed_grid_scenarios():
+    """samples of the requirement function on a boundary-biased grid (ascending elapsed time per burn fee)"""
+    out = []
+    for hb in (1, 100, 5000, 10000, 2 ** 20, 2 ** 40, 2 ** 62):
+        steps = []
+        base = sorted(set([0, 1, 2, 3, hb // 2, hb - 1, hb, hb + 1, 2 * hb - 2, 2 * hb - 1, 2 * hb, 2 * hb + 1, 3 * hb, 4 * hb]
+                          + [2 ** k for k in range(0, 64, 3)] + [2 ** 63, 2 ** 64 - 1]))
+        base = [d for d in base if 0 <= d < 2 ** 64]
+        for bf in [0, 1, 2, 3, 99, 10 ** 4, 10 ** 8, 5 * 10 ** 7, 123456789, 10 ** 8 * 3, 2 ** 29 - 1, 2 ** 31, 2 ** 32 + 1, 2 ** 53, 2 ** 53 + 1,
+                   2 ** 63, 2 ** 64 - 1]:
+            steps.append(dict(op="needed", bf=bf, dts=base))
+        out.append(dict(g=10, hb=hb, keys=1, issuance=[["k1", 1000]], node_key="k1", replica=False, steps=steps, tag="needed-grid"))
+    return out
+
+
 def scenarios(seed, n, long_p=0.3):
     rnd = random.Random(seed)
     out = []
@@ -357,6 +460,8 @@ def scenarios(seed, n, long_p=0.3):
         out.append(dusty_scenario(rnd))
     for i in range(n // 6):
         out.append(work_scenario(rnd))
+    for i in range(max(2, n // 25)):
+        out.append(dust_spend_scenario(rnd))
     for i in range(n - 2 * (n // 6)):
         g = rnd.choice([3, 3, 4, 6])
         big = rnd.random() < 0.1
